@@ -290,15 +290,44 @@ fn run_history<W: Wb>(fmt: &str, open: &dyn Fn() -> Option<W>, book: &MBook, has
     let (core0, _) = wb.digest();
     let n_steps = 8 + rng.usize(40);
     let mut prev_op: Option<Op> = None;
+    // scripted prefix (every other history): the same cached-looking read before and after a
+    // header-row change, for tables, merged regions and ranges of one sheet
+    let mut script: Vec<(Option<Option<u32>>, Op)> = vec![];
+    if rng.bool() {
+        let h1 = rng.pick(&header_choices).clone();
+        let h2 = rng.pick(&header_choices).clone();
+        let n = pick_name(rng);
+        if let Some(t) = tables.first() {
+            let t2 = tables[rng.usize(tables.len())].clone();
+            script.push((Some(h1), Op::Table(t.clone())));
+            script.push((Some(h2), Op::Table(t2.clone())));
+            script.push((None, Op::TableRef(t2)));
+            script.push((Some(h1), Op::Table(t.clone())));
+            out.feat("scripted:table_across_header_change");
+        }
+        script.push((Some(h1), Op::Range(n.clone())));
+        script.push((Some(h2), Op::Range(n.clone())));
+        script.push((None, Op::RangeRef(n.clone())));
+        script.push((Some(h1), Op::Formula(n.clone())));
+        script.push((Some(h2), Op::Formula(n)));
+        script.reverse();
+    }
+    let n_steps = n_steps + script.len();
     for step in 0..n_steps {
-        if rng.chance(1, 6) {
+        let scripted = script.pop();
+        if let Some((Some(h), _)) = &scripted {
+            header = h.clone();
+            wb.set_header(to_header(&header));
+            out.feat("header_row_changed");
+        } else if scripted.is_none() && rng.chance(1, 6) {
             header = rng.pick(&header_choices).clone();
             wb.set_header(to_header(&header));
             out.feat("header_row_changed");
         }
         // heavy repetition and interleaving over few sheets
-        let op = match (&prev_op, rng.below(4)) {
-            (Some(p), 0) => p.clone(),
+        let op = match (scripted, &prev_op, rng.below(4)) {
+            (Some((_, op)), _, _) => op,
+            (None, Some(p), 0) => p.clone(),
             _ => gen_op(rng),
         };
         let res = match guard(|| wb.call(&op)) {
@@ -474,7 +503,7 @@ impl Prop for C07 {
         tier.pick(16, 160)
     }
     fn mandatory(&self, _t: Tier) -> Vec<String> {
-        let mut v: Vec<String> = ["fmt:xlsx", "fmt:xlsb", "fmt:xls", "fmt:ods", "header_row_changed", "auto_detected", "non_worksheet_present", "with_vba"].iter().map(|s| s.to_string()).collect();
+        let mut v: Vec<String> = ["fmt:xlsx", "fmt:xlsb", "fmt:xls", "fmt:ods", "header_row_changed", "auto_detected", "non_worksheet_present", "with_vba", "scripted:table_across_header_change"].iter().map(|s| s.to_string()).collect();
         for o in ["Range", "RangeRef", "RangeAt", "Worksheets", "Formula", "MergeCells", "MergeCellsAt", "MergedBySheet", "Table", "TableRef", "Vba", "SheetNames", "Metadata", "DefinedNames"] {
             v.push(format!("op:{}", o));
         }
